@@ -232,14 +232,12 @@ def main():
         with open(os.path.join(outdir, "blocks.rs"), "w") as f:
             f.write("// generated by bin/gen_macros.py from MC_AnimGrammar output - do not edit\n")
             f.write("pub const N: usize = %d;\n" % len(lines))
-            f.write("pub fn by_macro(i: usize) -> EnumStateAnimator<S4, G4Timeline> { match i {\n")
             for i, l in enumerate(lines):
-                f.write("  %d => %s,\n" % (i, block_tokens(l["block"])))
-            f.write("  _ => unreachable!() } }\n")
-            f.write("pub fn by_builder(i: usize) -> EnumStateAnimator<S4, G4Timeline> { match i {\n")
-            for i, l in enumerate(lines):
-                f.write("  %d => %s,\n" % (i, block_twin(l["block"], l["s0"])))
-            f.write("  _ => unreachable!() } }\n")
+                f.write("fn m%d() -> EnumStateAnimator<S4, G4Timeline> { %s }\n" % (i, block_tokens(l["block"])))
+                f.write("fn b%d() -> EnumStateAnimator<S4, G4Timeline> { %s }\n" % (i, block_twin(l["block"], l["s0"])))
+            f.write("static MACRO_FNS: [fn() -> EnumStateAnimator<S4, G4Timeline>; %d] = [%s];\n" % (len(lines), ", ".join("m%d" % i for i in range(len(lines)))))
+            f.write("static BUILDER_FNS: [fn() -> EnumStateAnimator<S4, G4Timeline>; %d] = [%s];\n" % (len(lines), ", ".join("b%d" % i for i in range(len(lines)))))
+            f.write("pub fn by_macro(i: usize) -> EnumStateAnimator<S4, G4Timeline> { MACRO_FNS[i]() }\npub fn by_builder(i: usize) -> EnumStateAnimator<S4, G4Timeline> { BUILDER_FNS[i]() }\n")
         with open(os.path.join(outdir, "blocks.json"), "w") as f:
             json.dump([{"i": i, "tokens": block_tokens(l["block"])} for i, l in enumerate(lines)], f)
         print(json.dumps({"blocks": len(lines)}))
@@ -277,27 +275,23 @@ def main():
         with open(os.path.join(outdir, "sentences.rs"), "w") as f:
             f.write("// generated by bin/gen_macros.py from MC_Grammar output - do not edit\n")
             f.write("pub const N: usize = %d;\n" % len(lines))
-            f.write("pub fn by_macro(i: usize) -> P4Timeline { match i {\n")
+            # one function per sentence (a single giant match would need a giant stack frame)
             for i, l in enumerate(lines):
-                f.write("  %d => timeline!(P4 %s),\n" % (i, sentence_tokens(l["args"])))
-            f.write("  _ => unreachable!() } }\n")
-            f.write("pub fn by_builder(i: usize) -> P4Timeline { match i {\n")
-            for i, l in enumerate(lines):
-                f.write("  %d => %s,\n" % (i, twin_chain(l["args"])))
-            f.write("  _ => unreachable!() } }\n")
+                f.write("fn m%d() -> P4Timeline { timeline!(P4 %s) }\n" % (i, sentence_tokens(l["args"])))
+                f.write("fn b%d() -> P4Timeline { %s }\n" % (i, twin_chain(l["args"])))
+            f.write("static MACRO_FNS: [fn() -> P4Timeline; %d] = [%s];\n" % (len(lines), ", ".join("m%d" % i for i in range(len(lines)))))
+            f.write("static BUILDER_FNS: [fn() -> P4Timeline; %d] = [%s];\n" % (len(lines), ", ".join("b%d" % i for i in range(len(lines)))))
+            f.write("pub fn by_macro(i: usize) -> P4Timeline { MACRO_FNS[i]() }\npub fn by_builder(i: usize) -> P4Timeline { BUILDER_FNS[i]() }\n")
             # merged lists: consecutive sentences
             pairs = [(i, i + 1, (i + 2) if i % 3 == 0 else None) for i in range(0, len(lines) - 2, 2)]
             f.write("pub const NM: usize = %d;\n" % len(pairs))
-            f.write("pub fn merged_by_macro(i: usize) -> MergedTimeline<P4Timeline> { match i {\n")
             for j, (a, b, c) in enumerate(pairs):
                 members = [sentence_tokens(lines[k]["args"]) for k in (a, b, c) if k is not None]
-                f.write("  %d => timeline!(P4 [ %s ]),\n" % (j, ", ".join(members)))
-            f.write("  _ => unreachable!() } }\n")
-            f.write("pub fn merged_by_builder(i: usize) -> MergedTimeline<P4Timeline> { match i {\n")
-            for j, (a, b, c) in enumerate(pairs):
-                members = [twin_chain(lines[k]["args"]) for k in (a, b, c) if k is not None]
-                f.write("  %d => MergedTimeline::of([%s]),\n" % (j, ", ".join(members)))
-            f.write("  _ => unreachable!() } }\n")
+                f.write("fn mm%d() -> MergedTimeline<P4Timeline> { timeline!(P4 [ %s ]) }\n" % (j, ", ".join(members)))
+                f.write("fn mb%d() -> MergedTimeline<P4Timeline> { MergedTimeline::of([%s]) }\n" % (j, ", ".join("b%d()" % k for k in (a, b, c) if k is not None)))
+            f.write("static MM_FNS: [fn() -> MergedTimeline<P4Timeline>; %d] = [%s];\n" % (len(pairs), ", ".join("mm%d" % j for j in range(len(pairs)))))
+            f.write("static MB_FNS: [fn() -> MergedTimeline<P4Timeline>; %d] = [%s];\n" % (len(pairs), ", ".join("mb%d" % j for j in range(len(pairs)))))
+            f.write("pub fn merged_by_macro(i: usize) -> MergedTimeline<P4Timeline> { MM_FNS[i]() }\npub fn merged_by_builder(i: usize) -> MergedTimeline<P4Timeline> { MB_FNS[i]() }\n")
             f.write("pub fn merged_members(i: usize) -> Vec<usize> { match i {\n")
             for j, (a, b, c) in enumerate(pairs):
                 f.write("  %d => vec![%s],\n" % (j, ", ".join(str(k) for k in (a, b, c) if k is not None)))
